@@ -25,7 +25,7 @@ PROP = {
 
 MUTATORS = ["add_block", "remove_block", "replace_block", "set-data3D", "set-force_and_torque", "set-force_platforms_data", "set-events", "set-emg"]
 READERS = ["blocks", "get_block-type", "get_block-index", "getitem", "data3D", "force_and_torque", "force_platforms_data", "events", "emg",
-           "calibrationData", "has_data3D", "has_force_and_torque", "has_events", "has_emg", "has_force_platforms_data", "len", "nBytes", "eq", "repr", "copy"]
+           "calibrationData", "has_data3D", "has_force_and_torque", "has_events", "has_emg", "has_force_platforms_data", "len", "nBytes", "eq", "eq-bare", "repr", "copy"]
 SETTER_TYPE = {"set-data3D": "data3D", "set-force_and_torque": "force3D", "set-force_platforms_data": "platData", "set-events": "events", "set-emg": "emg"}
 
 
@@ -229,19 +229,35 @@ class Interp:
                         return t == other
                     with t:
                         return t == other
+            if which == "eq-bare":   # no context supplied by the caller: whatever '==' does, it must clean up after itself
+                other = Tdf(self.path)
+                try:
+                    return t == other
+                finally:
+                    oh = getattr(other, "handler", None)
+                    if oh is not None and not oh.closed:
+                        self.leaked_other = True
+                        oh.close()
             if which == "copy":
                 self.copies += 1
                 return t.copy(os.path.join(self.dir, f"copy{self.copies}.tdf"))
 
+        self.leaked_other = False
         try:
             call()
         except Exception:  # noqa - a reader may refuse (absent block, undecodable type, never entered); it must just not write
             pass
+        if self.leaked_other:
+            self.ctx.fail(f"reader-{which}/handle-left-open", "'==' left the implicitly opened handle of its right operand open")
         self.stats["readers"] += 1
         if which == "eq" and not was_inside:
             # the harness itself opened a plain context around the comparison: that disarms like any context
             self.armed = False
-        implicit = not was_inside and which not in ("nBytes", "copy", "len", "eq")
+        if which == "eq-bare" and not was_inside and not getattr(t, "_inside_context", False):
+            # if '==' opened an implicit context on the left operand it has consumed the arm like any context; if it raised
+            # before opening anything the arm is untouched - learn which from the object's documented mode flag
+            self.armed = getattr(t, "_mode", "rb") == "r+b"
+        implicit = not was_inside and which not in ("nBytes", "copy", "len", "eq", "eq-bare")
         if implicit:
             self.stats["implicit-open"] += 1
             self.armed = False  # an implicit context consumes the arm as any context exit does
